@@ -663,6 +663,25 @@ def validate_names(nodes):
             raise ModelError("'%s' is the name of a built-in type and cannot be defined" % node.name)
 
 
+def validate_values(nodes, constants):
+    """ Enumerators and union discriminators are encoded as 32-bit unsigned integers. Requires cross referenced nodes. """
+    def check(what, owner, value):
+        try:
+            number = to_int(value, constants)
+        except calc.ParseError:
+            return
+        if number is not None and not isinstance(number, six.string_types) and not 0 <= number <= 0xFFFFFFFF:
+            raise ModelError("%s '%s' of %s out of 32-bit unsigned range" % (what, value, owner))
+
+    for node in nodes:
+        if isinstance(node, Enum):
+            for member in node.members:
+                check("enumerator value", node.name, member.value)
+        elif isinstance(node, Union):
+            for member in node.members:
+                check("discriminator", node.name, member.discriminator)
+
+
 def validate_sizer_types(nodes):
     """ A sizer is an integer: a builtin one, possibly behind typedefs. Requires cross referenced nodes. """
     for node in nodes:
@@ -684,6 +703,7 @@ def evaluate_model(nodes, warn_emitter=lambda x: None):
     topological_sort(nodes)
     constants = cross_reference(nodes, warn_emitter)
     validate_sizer_types(nodes)
+    validate_values(nodes, constants)
     evaluate_stiffness_kinds(nodes)
     evaluate_sizes(nodes, warn_emitter)
     return nodes, constants
